@@ -428,3 +428,38 @@ def edges_where(a, pred_holds):
             if pred_holds(oper, l, r) or pred_holds(_SWAP[oper], r, l):
                 out.extend(edges)
     return out
+
+
+def success_edges(a, cb):
+    """CFG edges taken exactly when the Result produced by the call in block cb was Ok: the Continue edges of the `?`
+    sites rooted at it (Try::branch -> discriminant switch, value 0)."""
+    out = []
+    for t in a.try_sites(cb):
+        for sw in a.cfg.succ[t]:
+            tt = a.blocks[sw]['t']
+            if tt['k'] == 'switch':
+                out += [(sw, tgt) for v, tgt in tt['ts'] if str(v) == '0']
+    return out
+
+
+def bool_edges(a, pred):
+    """(true_edges, false_edges) over all SwitchInt blocks whose discriminant expression satisfies pred (a bool)."""
+    te, fe = [], []
+    for b in sorted(a.cfg.reach0):
+        t = a.blocks[b]['t']
+        if t['k'] != 'switch':
+            continue
+        e = a.flow.expr(t['d'])
+        neg = False
+        while e[0] == 'un' and e[1] == 'Not':
+            neg = not neg
+            e = e[2]
+        if not pred(e):
+            continue
+        f = [(b, tgt) for v, tgt in t['ts'] if str(v) == '0']
+        tr = [(b, s) for s in a.cfg.succ[b] if (b, s) not in f]
+        if neg:
+            f, tr = tr, f
+        te += tr
+        fe += f
+    return te, fe
